@@ -312,15 +312,22 @@ def check_histories(rep, start, length, opsubset, part=0, nparts=1):
              'all': [o for o, _ in OPS]}[opsubset]
     table = [(o, k) for o, k in OPS if o in names]
     # the first operation of the history is split over `nparts` tasks: (opcode, first operand) pairs dealt round-robin
-    first = table if nparts == 1 else [t for i, t in enumerate(table) if i % nparts == part]
+    units = [(o, k, a0) for o, k in table for a0 in (POOLS[k[0]] if k else [None])]
+    first = units if nparts == 1 else [t for i, t in enumerate(units) if i % nparts == part]
+    if not first:
+        return
 
     def harness(c):
         V = SymVars(c)
         wn = start_model(start)
         hist = []
         for step in range(length):
-            op, kinds = V.choice('op%d' % step, table if step else first)
-            args = [V.choice('arg%d_%d' % (step, j), POOLS[kd]) for j, kd in enumerate(kinds)]
+            if step == 0:
+                op, kinds, a0 = V.choice('op0', first)
+                args = [a0 if j == 0 else V.choice('arg0_%d' % j, POOLS[kd]) for j, kd in enumerate(kinds)]
+            else:
+                op, kinds = V.choice('op%d' % step, table)
+                args = [V.choice('arg%d_%d' % (step, j), POOLS[kd]) for j, kd in enumerate(kinds)]
             hist.append((op, args))
         k, problems = run_history(wn, hist)
         return hist, k, problems
@@ -377,8 +384,11 @@ def run(rep, only=None):
         for part in range(8):
             tasks.append(('hist-%s-2-link-ops.%d' % (start, part), check_histories, (start, 2, 'link-ops', part, 8)))
     if rep.tier == 'thorough':
+        # split over the first operation so that no single task carries a whole tree
         for start in ('base', 'rich'):
-            tasks.append(('hist-%s-2-all' % start, check_histories, (start, 2, 'all')))
-        for fam in ('node-ops', 'link-ops', 'registry-ops'):
-            tasks.append(('hist-rich-3-%s' % fam, check_histories, ('rich', 3, fam)))
+            for part in range(14):
+                tasks.append(('hist-%s-2-all.%d' % (start, part), check_histories, (start, 2, 'all', part, 14)))
+        for fam, nparts in (('node-ops', 14), ('registry-ops', 14), ('link-ops', 42)):
+            for part in range(nparts):
+                tasks.append(('hist-rich-3-%s.%d' % (fam, part), check_histories, ('rich', 3, fam, part, nparts)))
     run_parallel(rep, tasks)
